@@ -372,7 +372,7 @@ int main(int argc, char **argv) {
            "^3 (b_x=t*a_x, c_x=t*a_x, c_y=t*b_y: all GROMACS-reduced incl. the boundary) + 12 tiny-tilt boxes (1e-3, -1e-6) + zero matrix + 2 explicitly open; "
            "each auto-detected and explicitly typed (diagonal ones also typed triclinic). Points: level A (every box): 4 base points x 8^3 differences "
            "(fractions {0,1/8,3/8,1/2,1/2+2^-20,5/8,7/8,1}) x whole-box offsets of either point with <=1 non-zero component from {0,+-1,+-2,+-1000} "
-           "(explicitly typed boxes: 1 base point); level B (" + std::string(thorough ? "24" : "<=24") + " representative auto boxes + open): full 7^3 base lattice x 8^3 differences via Topology::getDist, "
+           "(explicitly typed boxes: 1 base point); level B (" + std::string(thorough ? "24" : "<=24") + " representative auto-detected boxes + open): full 7^3 base lattice x 8^3 differences via Topology::getDist, "
            "and 4 bases x 8^3 differences x offsets with <=2 non-zero components. Oracle: integer-combination residual, membership in the set of "
            "brute-force (7^3 images, long double) minimisers within 1e-9 (ties accept any), sign flip on swap, shift invariance; outside the guaranteed "
            "range (triclinic, distance >= half shortest height) only integer-combination, invariance and antisymmetry up to rounding ties. "
